@@ -14,6 +14,10 @@ CLAIMED = {
     "C19": {"text": "Alias constructors are proved to be exactly one call of the canonical constructor with the same arguments; ignore_na/element_wise/"
                     "n_failure_cases/raise_warning semantics of the pandas check back end are proved for all series and option values.",
             "note": COMMON_NOTE + "groupby(...).head(n) is axiomatised as an arbitrary sub-selection; user predicates are S-callbacks."},
+    "C20": {"text": "pandas subsample is proved against the position-set spec (rows == head U tail U pick, each once, values and order kept) for all "
+                    "frames/series, all h,t,n and random states under the unique-index precondition; the any-index form is refuted by the verifier and listed as a "
+                    "known finding with native replay. The wiring of subsample vs whole object into every core check is proved for the container and array back ends.",
+            "note": COMMON_NOTE + "sample(n, random_state) is an uninterpreted row set that depends only on (random_state, n, object); polars subsample not yet under contract."},
 }
 
 NOT_APPLICABLE = {}
